@@ -159,6 +159,31 @@ def translate_site(src_root, site):
         hits = [n for n in ast.walk(fn) if isinstance(n, ast.Assign) and any(ast.unparse(t) == site["var"] for t in n.targets)]
         if len(hits) != 1: raise Unsupported(f"{len(hits)} assignments to `{site['var']}` in {site['fn']} (expected one)")
         body = "  " + g.val(hits[0].value)
+    elif mode == "copy":
+        # how deep a copy the code takes at a given place: 0 the object itself (an alias), 1 a fresh container holding the same members,
+        # 2 a deep copy.  `where` is the text of an assignment target, or "return:<callee>" for the first argument of a returned call.
+        def depth(e):
+            u = ast.unparse(e)
+            if isinstance(e, (ast.Name, ast.Attribute, ast.Subscript)): return 0
+            if isinstance(e, ast.Call):
+                f = ast.unparse(e.func)
+                if f in ("deepcopy", "copy.deepcopy") and len(e.args) == 1: return 2
+                if f.endswith(".model_copy"):
+                    kw = {k.arg: ast.unparse(k.value) for k in e.keywords}
+                    return 2 if kw.get("deep") == "True" else 1
+                if f in ("dict", "list", "set") and len(e.args) == 1 and not e.keywords: return 1
+                if f.endswith(".copy") and not e.args: return 1
+            if isinstance(e, ast.DictComp) and isinstance(e.value, ast.Call) and ast.unparse(e.value.func) in ("dict", "list") : return 2
+            raise Unsupported(f"copy expression `{u[:60]}`")
+        where = site["where"]
+        if where.startswith("return:"):
+            callee = where.split(":", 1)[1]
+            hits = [n.value.args[0] for n in ast.walk(fn) if isinstance(n, ast.Return) and isinstance(n.value, ast.Call) and ast.unparse(n.value.func) == callee and n.value.args]
+        else:
+            hits = [n.value for n in ast.walk(fn) if isinstance(n, ast.Assign) and any(ast.unparse(t) == where for t in n.targets)]
+            if site.get("pick") is not None: hits = [h for h in hits if site["pick"] in ast.unparse(h)]
+        if len(hits) != 1: raise Unsupported(f"{len(hits)} places match `{where}` in {site['fn']} (expected one)")
+        body = f"  {depth(hits[0])}"; rty = "Nat"
     elif mode == "branch":
         ifs = [n for n in ast.walk(fn) if isinstance(n, ast.If)]
         ifs.sort(key=lambda n: (n.lineno, n.col_offset))
@@ -263,6 +288,13 @@ SITES["C18"].append(dict(file="training.py", cls="IterativeTraining", fn="train"
 
 SITES["C18"].append(dict(file="training.py", cls="IterativeTraining", fn="train", mode="var", var="self.trained_epochs", lean="epochsAtLoopStart", before_loop=True,
                          atoms={"self.trained_epochs": ("epochs", O), "self.trained_epochs > 0": ("trained", B), "options.retrain": ("retrain", B)}))
+
+SITES["C14"] = [
+    dict(file="pipeline/builder.py", cls="PipelineBuilder", fn="from_pipeline", mode="copy", where="builder._edges[name]", lean="modifyEdgesCopy", atoms={}),
+    dict(file="pipeline/builder.py", cls="PipelineBuilder", fn="build_config", mode="copy", where="edges", lean="buildConfigEdgesCopy", atoms={}),
+    dict(file="data/builder.py", cls="DatasetBuilder", fn="__init__", mode="copy", where="self.schema", pick="name.schema", lean="builderFromDatasetSchemaCopy", atoms={}),
+    dict(file="data/builder.py", cls="DatasetBuilder", fn="build_container", mode="copy", where="return:DataContainer", lean="buildContainerSchemaCopy", atoms={}),
+]
 
 SITES["C11"] = SITES["C11"] + SITES["C05"]          # the samplers' fall-back paths must hand the generator on (C11) as well as `test_only` (C05)
 
